@@ -1,4 +1,5 @@
 import DaeVerif.C02.Proofs
+import DaeVerif.C02.Reload
 import DaeVerif.C01.Props
 /-!
 # C02 — property theorems: the kernel routing program and the userspace matcher decide identically
@@ -165,7 +166,7 @@ theorem no_hit_is_error_on_both_sides (pk : PktK) : expectedK pk none = -EPERM :
 
 /-- The typed array the builder emits for C01's compiled program (one LPM slot per address set,
 domain sets found by position) makes `Match` compute C01's `matchM`. -/
-theorem userspace_typed_eq_C01_matchM (es : List (Entry MCond Out)) (p : Pkt) (wan : Bool) (ubm : List Nat)
+theorem userspace_typed_eq_C01_matchM (es : List (Entry MCond Out)) (p : C01.Pkt) (wan : Bool) (ubm : List Nat)
     (outboundsOK : ∀ e ∈ es, OutOK e) (domainPositions : DomOK ubm p 0 es) :
     matchU (assignFrom 0 es).1 (assignFrom 0 es).2 ubm (toK p wan) = matchM es p := by
   unfold matchU matchM
@@ -175,7 +176,7 @@ theorem userspace_typed_eq_C01_matchM (es : List (Entry MCond Out)) (p : Pkt) (w
 
 /-- The same for the array the REAL builder emits: `ip()`/`sip()` sets share LPM tries through
 `lpmDedup` (any hash function, collisions included), `mac()` sets never do. -/
-theorem userspace_shared_eq_C01_matchM (hash : List Prefix → Nat) (es : List (Entry MCond Out)) (p : Pkt) (wan : Bool)
+theorem userspace_shared_eq_C01_matchM (hash : List Prefix → Nat) (es : List (Entry MCond Out)) (p : C01.Pkt) (wan : Bool)
     (ubm : List Nat) (outboundsOK : ∀ e ∈ es, OutOK e) (domainPositions : DomOK ubm p 0 es) :
     matchU (assignShare hash Builder.empty es).1 (assignShare hash Builder.empty es).2.tries ubm (toK p wan) = matchM es p := by
   unfold matchU matchM
@@ -189,7 +190,7 @@ returns the packed decision of the first matching rule (C01's specification), DN
 Remaining hypotheses: the program fits the maps (= the builder accepts it), the packet ranges, H2,
 and the position bookkeeping of the domain bitmap (`DomOK`: bit `i` is the truth of the key group
 whose match set sits at index `i` — `addDomain`'s `RuleIndex: len(b.rules)`, C01 `Position` / C11). -/
-theorem kernel_eq_first_match_spec (hash : List Prefix → Nat) (rules : List SRule) (fb : Out) (p : Pkt) (wan : Bool)
+theorem kernel_eq_first_match_spec (hash : List Prefix → Nat) (rules : List SRule) (fb : Out) (p : C01.Pkt) (wan : Bool)
     (ubm : List Nat) (m0 : KMaps) (old : List Nat) (dom : List (Nat × List Nat)) (start : Nat)
     (hp : p.WF) (hr : ∀ r ∈ rules, r.WF) (ranges : ∀ r ∈ rules, ruleRanges r)
     (fallbackOK : fb.outbound < OB_MustRules ∧ fb.mark < 2 ^ 32)
@@ -472,5 +473,179 @@ theorem lanNoPname_of_convention (pk : PktK) (h : pk.pname.headD 0 ≠ 0 → pk.
   by_cases hh : pk.pname.headD 0 = 0
   · exact hh
   · exact absurd hw (h hh)
+
+/-! ## 7. the control plane's own decoder, the domain-map key -/
+
+/-- `compileRoutingMatch` (what `BuildUserspace` falls back to, and what every reader of `b.rules` sees) decodes
+from the image the `add*` encoders wrote exactly the typed entry kept in `compiledRules` — all 2³² set indices and
+marks, all ports, masks, DSCPs, names; hosts of either byte order. -/
+theorem compile_decodes_what_was_encoded (e : Endian) (k : KEntry) (hc : k.cond.WF (2 ^ 32)) (hob : k.outbound < 256)
+    (hmk : k.mark < 2 ^ 32) : decodeGo e (encodeGo e k) = some k := decodeGo_encodeGo e k hc hob hmk
+
+example : decodeGo .big (encodeGo .big ⟨.port 1024 65535, true, OB_Or, true, 0xffffffff⟩) =
+    some ⟨.port 1024 65535, true, OB_Or, true, 0xffffffff⟩ := by decide
+
+/-- Whatever byte image sits in `routing_map` (also one no encoder wrote): what the control plane decodes from it is
+what the kernel reads of it. `compileRoutingMatch` and `route_eval_match`/`route_finalize_match` consult the same
+fields of `struct match_set` (little-endian target). -/
+theorem userspace_decodes_what_kernel_reads (img : List Nat) (k : KEntry) (hb : byteAt img 0 < 256)
+    (h : decodeGo .little img = some k) : readsAs img k = true := readsAs_of_decodeGo img k hb h
+
+example : decodeGo .little ([80, 0, 187, 1, 9, 9, 9, 9, 9, 9, 9, 9, 9, 9, 9, 9] ++ [1, 4, 254, 0, 0, 8, 0, 0]) =
+    some ⟨.srcPort 80 443, true, OB_Or, false, 0x800⟩ := by decide
+
+/-- an image of an unknown match type is an error on both sides (`unknown match type` / `-EINVAL`) -/
+example : decodeGo .little (zeros 16 ++ [0, 12, 1, 0, 0, 0, 0, 0]) = none := by decide
+
+/-- The array `BuildUserspace` gives the matcher is the builder's typed program, whether it takes `compiledRules`
+as is or (slices out of step) decodes the images again. -/
+theorem userspace_array_is_typed_program (e : Endian) (kp compiled : List KEntry)
+    (hK : ∀ k ∈ kp, k.cond.WF (2 ^ 32) ∧ k.outbound < 256 ∧ k.mark < 2 ^ 32)
+    (h : compiled = kp ∨ compiled.length ≠ kp.length) :
+    userspaceArray e compiled (kp.map (encodeGo e)) = some kp := by
+  have hm : ∀ l : List KEntry, (∀ k ∈ l, k.cond.WF (2 ^ 32) ∧ k.outbound < 256 ∧ k.mark < 2 ^ 32) →
+      (l.map (encodeGo e)).mapM (decodeGo e) = some l := by
+    intro l
+    induction l with
+    | nil => intro _; rfl
+    | cons k ks ih =>
+      intro hl
+      obtain ⟨h1, h2, h3⟩ := hl k List.mem_cons_self
+      simp only [List.map_cons, List.mapM_cons, decodeGo_encodeGo e k h1 h2 h3,
+        ih (fun k' hk' => hl k' (List.mem_cons_of_mem _ hk'))]
+      rfl
+  unfold userspaceArray
+  rcases h with rfl | h
+  · simp
+  · simp [h, hm kp hK]
+
+example : userspaceArray .little [] (exKp.map (encodeGo .little)) = some exKp := by decide
+
+/-- `Ipv6ByteSliceToUint32Array` + the host-order memory of its four words = the 16 address bytes, on hosts of either
+byte order: the key the control plane writes into `domain_routing_map` is the key the kernel looks up. -/
+theorem domain_key_is_address_bytes (e : Endian) (bs : List Nat) (hl : bs.length = 16) (hb : ∀ b ∈ bs, b < 256) :
+    keyImage e (keyWords e bs) = bs := keyImage_keyWords e bs hl hb
+
+example : keyImage .little (keyWords .little [0, 0, 0, 0, 0, 0, 0, 0, 0, 0, 255, 255, 93, 184, 216, 34]) =
+    [0, 0, 0, 0, 0, 0, 0, 0, 0, 0, 255, 255, 93, 184, 216, 34] ∧
+    keyWords .little [0, 0, 0, 0, 0, 0, 0, 0, 0, 0, 255, 255, 93, 184, 216, 34] = [0, 0, 0xffff0000, 0x22d8b85d] := by decide
+
+/-! ## 8. every history of reloads, failed installs included -/
+
+/-- **Invariant over all histories.** Start from the first load and apply ANY sequence of: reloads that cut over;
+staged reloads whose `buildRoutingKernspace` stopped at ANY point (any subset of the LPM slots written, any prefix
+of the rule images, everything but the active length, or everything — the failure then came after the commit),
+followed by the reload handler's `Close` of the staged generation and `RebuildReloadDatapath` of the serving one;
+self-rebuilds; arbitrary updates of the domain map. In every state reached the serving generation is `Installed`,
+the ring counter stands right behind its slots and it owns exactly its slots. -/
+theorem reload_histories_keep_generation_installed (kp0 : List KEntry) (tries0 : List (List Prefix)) (ops : List Op)
+    (h0 : GenOK ⟨0, kp0, tries0⟩) (hops : ∀ op ∈ ops, op.OK) : ((Sys.boot kp0 tries0).run ops).Good :=
+  run_good ops _ (boot_good kp0 tries0 h0) hops
+
+/-- … and therefore the kernel decides like the serving generation's userspace matcher after every such history. -/
+theorem reload_histories_keep_kernel_and_userspace_equal (kp0 : List KEntry) (tries0 : List (List Prefix)) (ops : List Op)
+    (h0 : GenOK ⟨0, kp0, tries0⟩) (hops : ∀ op ∈ ops, op.OK) (pk : PktK) (ubm : List Nat) (pktOK : PktOK pk)
+    (triesWF : ∀ t ∈ ((Sys.boot kp0 tries0).run ops).live.tries, ∀ p ∈ t, p.WF)
+    (domain : ∀ w, ((Sys.boot kp0 tries0).run ops).maps.domainWord pk.daddr w = ubm.getD w 0) :
+    routeK .little ((Sys.boot kp0 tries0).run ops).maps pk =
+      expectedK pk (matchU ((Sys.boot kp0 tries0).run ops).live.kp ((Sys.boot kp0 tries0).run ops).live.tries ubm pk) := by
+  have g := reload_histories_keep_generation_installed kp0 tries0 ops h0 hops
+  exact routeK_main _ pk _ _ _ ubm g.inst triesWF pktOK domain g.gen.ok
+
+/-- `RebuildReloadDatapath` repairs ANY map state (whatever another generation's partial install and its `Close`
+left), as long as the ring counter is in range. -/
+theorem rebuild_restores_from_any_maps (s : Sys) (hg : GenOK s.live) (hc : s.counter < MaxMatchSetLen) : s.rebuild.Good :=
+  rebuild_good s hg hc
+
+/-- a history with a failed install at each kind of stage, a cut-over and a self-rebuild; the ring wraps -/
+def exOps : List Op := [
+  .failed [⟨.srcIpSet 0, true, 3, false, 7⟩, ⟨.fallback, false, 0, false, 0⟩] [[⟨true, mapped4 0xc0a80000, 16⟩]] (.lpm [0]),
+  .failed [⟨.srcIpSet 0, true, 3, false, 7⟩, ⟨.fallback, false, 0, false, 0⟩] [[⟨true, mapped4 0xc0a80000, 16⟩]] (.rules 1),
+  .failed [⟨.fallback, false, 4, false, 0⟩] [] .noLen,
+  .failed [⟨.srcIpSet 0, true, 3, false, 7⟩, ⟨.fallback, false, 0, false, 0⟩] [[⟨true, mapped4 0xc0a80000, 16⟩]] .done,
+  .dom [(mapped4 0x0a010203, [16])],
+  .reload [⟨.ipSet 0, false, 6, true, 1⟩, ⟨.fallback, false, 0, false, 0⟩] [[⟨true, mapped4 0x0a000000, 8⟩]],
+  .rebuild]
+
+theorem exOpsOK : ∀ op ∈ exOps, op.OK := by
+  intro op hop
+  simp only [exOps, List.mem_cons, List.not_mem_nil, or_false] at hop
+  rcases hop with rfl | rfl | rfl | rfl | rfl | rfl | rfl
+  all_goals first
+    | trivial
+    | exact ⟨by decide, by decide, by
+        intro k hk
+        simp only [List.mem_cons, List.not_mem_nil, or_false] at hk
+        rcases hk with rfl | rfl <;> exact ⟨by decide, by decide, by decide⟩⟩
+
+example : GenOK ⟨0, exKp, exTries⟩ := ⟨by decide, by decide, exEntriesOK⟩
+
+-- the states reached are not trivial: after the four failed installs the serving generation is still the first
+-- program, at ring start 2 + 1 + 2 + 1 + 0 + 2 + 1 + 2 = 11 (every attempt and every rebuild consumed slots), and the
+-- executable `Installed` check holds on the model's maps; after the whole history the last program serves
+example : ((Sys.boot exKp exTries).run (exOps.take 4)).live.start = 11 ∧
+    installedB ((Sys.boot exKp exTries).run (exOps.take 4)).maps 11 exKp exTries = true ∧
+    ((Sys.boot exKp exTries).run exOps).live.kp.length = 2 ∧ ((Sys.boot exKp exTries).run exOps).counter = 15 := by decide
+
+/-! ### the hot-reload window -/
+
+/-- **The LPM phase of the next generation's install is invisible to the serving generation.** While
+`buildRoutingKernspace` of a staged generation has written any subset of its LPM slots (and nothing else yet), the
+kernel still decides exactly like the serving generation's userspace matcher — provided the two generations together
+need at most `MAX_MATCH_SET_LEN` slots (the ring hands out disjoint slots). This is what `globalNextLpmIndex` is for. -/
+theorem hot_reload_lpm_phase_keeps_old_generation (s : Sys) (g : s.Good) (kp' : List KEntry) (tries' : List (List Prefix))
+    (st' c' : Nat) (hr : reserveRing s.counter tries'.length = some (st', c'))
+    (hsum : s.live.tries.length + tries'.length ≤ MaxMatchSetLen) (written : List Nat)
+    (pk : PktK) (ubm : List Nat) (pktOK : PktOK pk) (triesWF : ∀ t ∈ s.live.tries, ∀ p ∈ t, p.WF)
+    (domain : ∀ w, s.maps.domainWord pk.daddr w = ubm.getD w 0) :
+    routeK .little (installUpTo (.lpm written) st' kp' tries' s.maps) pk =
+      expectedK pk (matchU s.live.kp s.live.tries ubm pk) := by
+  have hi := lpmPhase_installed s.maps s.live.start s.live.kp s.live.tries g.inst st' kp' tries' written
+    (fun i hi idx hidx => ring_next_disjoint s.live.start s.live.tries.length s.counter tries'.length st' c' g.startLt g.ring hr hsum
+      i idx hi hidx)
+  exact routeK_main _ pk _ _ _ ubm hi triesWF pktOK domain g.gen.ok
+
+/-- The full window statement: the kernel agrees with the serving generation's matcher at EVERY stage of a staged
+install. It does not hold — the rule images and the active length are written by separate, non-atomic updates. -/
+def hot_reload_window_full : Prop :=
+  ∀ (s : Sys), s.Good → ∀ (kp' : List KEntry) (tries' : List (List Prefix)) (st' c' : Nat) (stage : Stage),
+    reserveRing s.counter tries'.length = some (st', c') → s.live.tries.length + tries'.length ≤ MaxMatchSetLen →
+    GenOK ⟨0, kp', tries'⟩ → ∀ (pk : PktK), PktOK pk → (∀ w, s.maps.domainWord pk.daddr w = 0) →
+    routeK .little (installUpTo stage st' kp' tries' s.maps) pk = expectedK pk (matchU s.live.kp s.live.tries [] pk)
+
+/-- Negative witness: serving `dport(80) -> block; fallback: direct`, staged `fallback: g4`; between the rule-image
+update and the active-length update the kernel sends a TCP/80 packet to `g4` while the serving matcher says `block`.
+(The reload handler repairs this state with `RebuildReloadDatapath`; the interval itself is outside the property.) -/
+theorem hot_reload_window_full_fails : ¬ hot_reload_window_full := by
+  intro h
+  have g : (Sys.boot [⟨.port 80 80, false, 1, false, 0⟩, ⟨.fallback, false, 0, false, 0⟩] []).Good :=
+    boot_good _ _ ⟨by decide, by decide, by
+      intro k hk
+      simp only [List.mem_cons, List.not_mem_nil, or_false] at hk
+      rcases hk with rfl | rfl <;> exact ⟨by decide, by decide, by decide⟩⟩
+  have := h _ g [⟨.fallback, false, 4, false, 0⟩] [] 0 0 .noLen (by decide) (by decide)
+    ⟨by decide, by decide, by
+      intro k hk
+      simp only [List.mem_cons, List.not_mem_nil, or_false] at hk
+      subst hk; exact ⟨by decide, by decide, by decide⟩⟩
+    ⟨1, 1, List.replicate 16 0, 0, 0, 40000, 80, 1, 2, 0⟩
+    ⟨by decide, by decide, by decide, by decide, by decide, by decide, by decide⟩ (fun w => rfl)
+  revert this
+  decide
+
+example : reserveRing 3 2 = some (3, 5) := by decide
+
+/-! ### what `route()` can observe -/
+
+/-- `route()` depends on a map state only through the active length, the fields it reads of the rule images below
+it, the tries in the slots those images name and the domain bitmaps: this is the comparison (`obsEqB`) the driver makes
+between the model's predicted maps and the maps dumped from the real kernel after every step of a history. -/
+theorem route_depends_only_on_observables (a b : KMaps) (h : obsEqB a b = true) (pk : PktK) :
+    routeK .little a pk = routeK .little b pk := obsEq_route a b h pk
+
+-- two different map states (stale rule images beyond the active length, stale LPM slots, a different number of
+-- inner maps) that `route()` cannot tell apart
+example : obsEqB exMaps (installGen .little 1023 exKp exTries KMaps.empty) = true ∧
+    exMaps.routing.length ≠ (installGen .little 1023 exKp exTries KMaps.empty).routing.length := by decide
 
 end DaeVerif.C02.Props
